@@ -8,9 +8,14 @@
 //!       c.start|c.pause|c.stop|c.drop|c.time <id>     c.speed <id> <value> <tween>
 //!       t.set <id> <target> <tween>     t.drop <id>
 //!       play <start>              — a constant static sound (amplitude 2^-(j+1) for the j-th sound)
+//!       qplay                     — a SILENT looping static sound on the main track (its life cycle is what is observed)
+//!       q.pause <j> <tween>       q.resume <j> <start> <tween>     — `pause` / `resume` / `resume_at` of its handle → state
+//!       track                     — an empty sub-track of the main track
+//!       k.pause <t> <tween>       k.resume <t> <start> <tween>     — the same for the track's handle → state
 //!       cb <frames>               — one device callback (on_start_processing + process)
 //! start: imm | del:<ns> | clk:<id>:<ticks>:<frac>      (ids are resource ids)
 //! `cb` trace: `{per chunk: what the spy saw} … | handle.time of every clock | status of every sound`
+//!             (+ ` | q<handle.state() of every silent sound> | k<handle.state() of every track>` when there are any)
 use crate::probe::{self, ProbeBackend};
 use crate::runner::{run_cases, Out};
 use crate::suites::param::Ty;
@@ -22,7 +27,7 @@ use kira::modulator::tweener::{TweenerBuilder, TweenerHandle};
 use kira::modulator::ModulatorId;
 use kira::sound::static_sound::{StaticSoundData, StaticSoundHandle, StaticSoundSettings};
 use kira::sound::{PlaybackState, Sound, SoundData};
-use kira::track::MainTrackBuilder;
+use kira::track::{MainTrackBuilder, TrackBuilder, TrackHandle, TrackPlaybackState};
 use kira::{AudioManager, Capacities, Frame, StartTime, Tween, Value};
 use std::sync::{Arc, Mutex};
 use std::time::Duration;
@@ -88,6 +93,8 @@ enum Res {
 		n_start: u32,
 		n_disturb: u32,
 		n_speed: u32,
+		/// the speed values given so far (creation value first)
+		speeds: Vec<String>,
 	},
 	Tweener {
 		handle: Option<TweenerHandle>,
@@ -130,6 +137,35 @@ struct TweenRec {
 	v1: f64,
 	ok_premise: bool,
 	line: String,
+}
+
+/// what the harness follows of a silent sound (`sound = true`) or an empty sub-track: the clock time its
+/// life cycle waits for after a `resume_at(ClockTime)` that the audio thread has read
+struct LifeRec {
+	sound: Option<StaticSoundHandle>,
+	track: Option<TrackHandle>,
+	/// commands written since the last callback (read by the next one: pause first, then resume)
+	cmd_pause: bool,
+	cmd_resume: Option<StartSpec>,
+	/// waiting to resume at (clock resource, ticks, fraction)
+	wait: Option<(usize, u64, f64)>,
+	/// sounds: the callback count at which the handle first reported Stopped
+	stopped_at_cb: Option<u64>,
+}
+impl LifeRec {
+	fn state(&self) -> u8 {
+		match (&self.sound, &self.track) {
+			(Some(h), _) => crate::suites::psm::state_num(h.state()),
+			(_, Some(h)) => match h.state() {
+				TrackPlaybackState::Playing => 0,
+				TrackPlaybackState::Pausing => 1,
+				TrackPlaybackState::Paused => 2,
+				TrackPlaybackState::WaitingToResume => 3,
+				TrackPlaybackState::Resuming => 4,
+			},
+			_ => 9,
+		}
+	}
 }
 
 fn res_clock_id(res: &[Res], i: usize) -> ClockId {
@@ -210,6 +246,12 @@ struct Sys {
 	tweens: Vec<TweenRec>,
 	frame: u64,
 	ibs: usize,
+	/// silent sounds (`qplay`) and empty sub-tracks (`track`)
+	qsounds: Vec<LifeRec>,
+	tracks: Vec<LifeRec>,
+	/// sounds ever played on the main track (the spy included), callbacks so far
+	main_added: usize,
+	ncb: u64,
 }
 
 impl Sys {
@@ -264,6 +306,10 @@ fn exec(case: &[String], out: &mut Out) {
 				tweens: vec![],
 				frame: 0,
 				ibs,
+				qsounds: vec![],
+				tracks: vec![],
+				main_added: 1,
+				ncb: 0,
 			});
 			out.put("ok");
 			continue;
@@ -287,6 +333,7 @@ fn exec(case: &[String], out: &mut Out) {
 					n_start: 0,
 					n_disturb: 0,
 					n_speed: 0,
+					speeds: vec![tok[1].to_string()],
 				});
 				out.put("ok");
 			}
@@ -353,8 +400,9 @@ fn exec(case: &[String], out: &mut Out) {
 				let v = parse_cs_value(tok[2]);
 				let (tw, spec, dur, easing) = parse_tween(tok[3], &s.res);
 				let (simple, tps0) = match &mut s.res[i] {
-					Res::Clock { n_speed, n_disturb, n_start, tps0, .. } => {
+					Res::Clock { n_speed, n_disturb, n_start, tps0, speeds, .. } => {
 						*n_speed += 1;
+						speeds.push(tok[2].to_string());
 						(*n_speed == 1 && *n_disturb == 0 && *n_start == 1, *tps0)
 					}
 					_ => panic!(),
@@ -428,6 +476,7 @@ fn exec(case: &[String], out: &mut Out) {
 					slice: None,
 				};
 				let handle = s.mgr.play(data).unwrap();
+				s.main_added += 1;
 				s.sounds.push(SoundRec {
 					handle,
 					start: spec,
@@ -437,9 +486,89 @@ fn exec(case: &[String], out: &mut Out) {
 				});
 				out.put("ok");
 			}
+			"qplay" => {
+				let data = StaticSoundData {
+					sample_rate: s.sr,
+					frames: (0..4).map(|_| Frame::ZERO).collect(),
+					settings: StaticSoundSettings::new().loop_region(..),
+					slice: None,
+				};
+				let handle = s.mgr.play(data).unwrap();
+				s.main_added += 1;
+				s.qsounds.push(LifeRec {
+					sound: Some(handle),
+					track: None,
+					cmd_pause: false,
+					cmd_resume: None,
+					wait: None,
+					stopped_at_cb: None,
+				});
+				out.put("ok");
+			}
+			"track" => {
+				let handle = s.mgr.add_sub_track(TrackBuilder::new()).unwrap();
+				s.tracks.push(LifeRec {
+					sound: None,
+					track: Some(handle),
+					cmd_pause: false,
+					cmd_resume: None,
+					wait: None,
+					stopped_at_cb: None,
+				});
+				out.put("ok");
+			}
+			"q.pause" | "k.pause" | "q.resume" | "k.resume" => {
+				let j = pu(tok[1]) as usize;
+				let pause = tok[0].ends_with("pause");
+				let (st, spec) = if pause { (StartTime::Immediate, StartSpec::Imm) } else { parse_start(tok[2], &s.res) };
+				let (tw, _, _, _) = parse_tween(tok[if pause { 2 } else { 3 }], &s.res);
+				let rec = if tok[0].starts_with('q') { &mut s.qsounds[j] } else { &mut s.tracks[j] };
+				match (&mut rec.sound, &mut rec.track) {
+					(Some(h), _) => {
+						if pause {
+							h.pause(tw)
+						} else if st == StartTime::Immediate {
+							h.resume(tw)
+						} else {
+							h.resume_at(st, tw)
+						}
+					}
+					(_, Some(h)) => {
+						if pause {
+							h.pause(tw)
+						} else if st == StartTime::Immediate {
+							h.resume(tw)
+						} else {
+							h.resume_at(st, tw)
+						}
+					}
+					_ => {}
+				}
+				if pause {
+					rec.cmd_pause = true;
+				} else {
+					rec.cmd_resume = Some(spec);
+				}
+				out.put(format!("{}", rec.state()));
+			}
 			"cb" => {
 				let frames = pu(tok[1]) as usize;
 				let nrec0 = s.spy.lock().unwrap().records.len();
+				// the commands this callback's on_start_processing reads (a sound that is Stopped has been, or is
+				// now, unloaded and reads nothing): pause first, then resume; `resume_at(ClockTime)` leaves the life
+				// cycle waiting for that clock time
+				for rec in s.qsounds.iter_mut().chain(s.tracks.iter_mut()) {
+					if rec.cmd_pause || rec.cmd_resume.is_some() {
+						rec.wait = None;
+						if let Some(StartSpec::Clk(c, ticks, frac)) = rec.cmd_resume {
+							if rec.state() != 6 {
+								rec.wait = Some((c, ticks, frac));
+							}
+						}
+						rec.cmd_pause = false;
+						rec.cmd_resume = None;
+					}
+				}
 				let audio = s.mgr.backend_mut().callback(frames, 2);
 				let recs: Vec<Vec<Item>> = s.spy.lock().unwrap().records[nrec0..].to_vec();
 				// chunk boundaries as the renderer makes them
@@ -488,6 +617,58 @@ fn exec(case: &[String], out: &mut Out) {
 					}
 				}
 				s.frame += frames as u64;
+				s.ncb += 1;
+				// --- C05: "anything scheduled for a clock time - … a resume - … is cancelled if the clock no longer
+				// exists": a sound waiting to resume becomes Stopped (and is unloaded by the next callback), a track
+				// stays paused; while the clock exists the resume fires in the chunk in which the clock reaches the time
+				let ncb = s.ncb;
+				for (is_sound, rec) in s.qsounds.iter_mut().map(|r| (true, r)).chain(s.tracks.iter_mut().map(|r| (false, r))) {
+					if let Some((c, ticks, frac)) = rec.wait {
+						let mut outcome = None;
+						for items in &recs {
+							match items.get(c) {
+								Some(Item::Clock(None)) | None => {
+									outcome = Some(false);
+									break;
+								}
+								Some(it) => {
+									if ready(it, ticks, frac) {
+										outcome = Some(true);
+										break;
+									}
+								}
+							}
+						}
+						let st = rec.state();
+						match outcome {
+							Some(false) => {
+								rec.wait = None;
+								if st != if is_sound { 6 } else { 2 } {
+									out.oracle_fail("missing_clock_cancels_resume", l);
+								}
+							}
+							Some(true) => {
+								rec.wait = None;
+								if !(st == 4 || st == 0) {
+									out.oracle_fail("resume_at_clock_time_fires", l);
+								}
+							}
+							None => {
+								if st != 3 {
+									out.oracle_fail("resume_waits_for_clock_time", l);
+								}
+							}
+						}
+					}
+					if is_sound && rec.state() == 6 && rec.stopped_at_cb.is_none() {
+						rec.stopped_at_cb = Some(ncb);
+					}
+				}
+				// … "and unloaded": every silent sound that was Stopped before this callback began is off the main track
+				let gone = s.qsounds.iter().filter(|r| r.stopped_at_cb.map(|k| k < ncb).unwrap_or(false)).count();
+				if s.mgr.main_track().num_sounds() + gone > s.main_added {
+					out.oracle_fail("cancelled_sound_not_unloaded", l);
+				}
 				let handles: Vec<String> = s
 					.res
 					.iter()
@@ -511,7 +692,13 @@ fn exec(case: &[String], out: &mut Out) {
 						}
 					})
 					.collect();
-				out.put(format!("{} | {} | {}", spy_lines.join(" "), handles.join(","), sounds.join(",")));
+				let mut line = format!("{} | {} | {}", spy_lines.join(" "), handles.join(","), sounds.join(","));
+				if !s.qsounds.is_empty() || !s.tracks.is_empty() {
+					let q: Vec<String> = s.qsounds.iter().map(|r| r.state().to_string()).collect();
+					let k: Vec<String> = s.tracks.iter().map(|r| r.state().to_string()).collect();
+					line += &format!(" | q{} | k{}", q.join(","), k.join(","));
+				}
+				out.put(line);
 			}
 			_ => panic!("clocksys: unknown op {}", tok[0]),
 		}
@@ -545,13 +732,23 @@ fn oracles(s: &mut Sys, case: &[String], out: &mut Out) {
 	let rp = replay_of(case);
 	// --- clocks: exact audio time, independent of the partition; pause freezes; fraction in [0,1)
 	for (i, r) in s.res.iter().enumerate() {
-		if let Res::Clock { tps0, start_chunk, n_start, n_disturb, n_speed, .. } = r {
+		if let Res::Clock { tps0, start_chunk, n_start, n_disturb, n_speed, speeds, .. } = r {
 			let mut prev: Option<ClockInfo> = None;
 			let mut frames_since_start: u64 = 0;
+			let mut nan_reported = false;
 			for k in 0..n {
 				let it = s.chunks[k].items.get(i).copied();
 				if let Some(Item::Clock(Some(ci))) = it {
-					if !(ci.time.fraction >= 0.0 && ci.time.fraction < 1.0) {
+					if ci.time.fraction.is_nan() {
+						// not a number, and it stays so until `stop()`: report the first chunk only
+						if !nan_reported {
+							nan_reported = true;
+							out.oracle_fail(
+								"clock_time_nan",
+								format!("{} clock={} chunk={} speeds={}", rp, i, k, speeds.join(">")),
+							);
+						}
+					} else if !(ci.time.fraction >= 0.0 && ci.time.fraction < 1.0) {
 						out.oracle_fail("fraction_in_unit_interval", format!("{} clock={} chunk={}", rp, i, k));
 					}
 					if let Some(p) = prev {
@@ -843,9 +1040,109 @@ pub fn gen(rng: &mut Rng, n: usize, _thorough: bool, stats: &mut Stats) -> Vec<S
 			frames: 0,
 		};
 		g.mgr(stats);
-		let kind = g.rng.below(10);
+		let kind = g.rng.below(14);
 		stats.hit(&format!("kind_{}", kind));
 		match kind {
+			// a sound / a track told to resume at a clock time: the clock reaches it, or goes away first
+			// (its handle dropped before or after the audio thread has read the resume), or never existed for
+			// the audio thread
+			10..=13 => {
+				let nclocks = g.rng.range(1, 2);
+				let mut cs = vec![];
+				for _ in 0..nclocks {
+					let tpf = g.ticks_per_frame();
+					let c = g.clock(tpf * g.sr as f64, stats);
+					cs.push(c);
+				}
+				let nq = g.rng.range(0, 2) as usize;
+				let nk = if nq == 0 { g.rng.range(1, 2) } else { g.rng.range(0, 2) } as usize;
+				for _ in 0..nq {
+					g.push("qplay".into(), stats);
+				}
+				for _ in 0..nk {
+					g.push("track".into(), stats);
+				}
+				let started_early = g.rng.chance(1, 2);
+				if started_early {
+					for c in cs.clone() {
+						g.push(format!("c.start {}", c), stats);
+					}
+				}
+				let k = g.rng.below(3);
+				g.cbs(k, stats);
+				let fade = |g: &mut G| -> String {
+					match g.rng.below(4) {
+						0 => format!("imm;{};lin", g.rng.pick(&[1_000_000u64, 20_000_000])),
+						_ => "imm;0;lin".to_string(),
+					}
+				};
+				// pause (not always: `resume_at` also makes a playing sound wait)
+				for j in 0..nq {
+					if g.rng.chance(4, 5) {
+						let f = fade(&mut g);
+						g.push(format!("q.pause {} {}", j, f), stats);
+					}
+				}
+				for t in 0..nk {
+					if g.rng.chance(4, 5) {
+						let f = fade(&mut g);
+						g.push(format!("k.pause {} {}", t, f), stats);
+					}
+				}
+				let k = g.rng.below(3);
+				g.cbs(k, stats);
+				// the drop comes before the resume is written, between the write and the callback that reads it,
+				// some callbacks later, or not at all (then the clock reaches the time, or it is never started)
+				let victim = g.rng.pick(&cs);
+				let drop_at = g.rng.below(5);
+				if drop_at == 0 {
+					g.push(format!("c.drop {}", victim), stats);
+					if g.rng.chance(1, 2) {
+						g.cbs(1, stats);
+					}
+				}
+				for j in 0..nq {
+					let c = if g.rng.chance(3, 4) { victim } else { g.rng.pick(&cs) };
+					let (t, f) = gen_target(g.rng);
+					let far = if g.rng.chance(1, 2) { 40 } else { 0 };
+					let fd = fade(&mut g);
+					g.push(format!("q.resume {} clk:{}:{}:{} {}", j, c, t + far, o64(f), fd), stats);
+				}
+				for t in 0..nk {
+					let c = if g.rng.chance(3, 4) { victim } else { g.rng.pick(&cs) };
+					let (tt, f) = gen_target(g.rng);
+					let far = if g.rng.chance(1, 2) { 40 } else { 0 };
+					let fd = fade(&mut g);
+					g.push(format!("k.resume {} clk:{}:{}:{} {}", t, c, tt + far, o64(f), fd), stats);
+				}
+				if drop_at == 1 {
+					g.push(format!("c.drop {}", victim), stats);
+				}
+				if !started_early && g.rng.chance(2, 3) {
+					for c in cs.clone() {
+						if !(drop_at <= 1 && c == victim) {
+							g.push(format!("c.start {}", c), stats);
+						}
+					}
+				}
+				let k = g.rng.range(1, 3) as u64;
+				g.cbs(k, stats);
+				if drop_at == 2 || drop_at == 3 {
+					g.push(format!("c.drop {}", victim), stats);
+				}
+				let k = g.rng.range(2, 6) as u64;
+				g.cbs(k, stats);
+				// afterwards the handles still work: a track can be resumed, a stopped sound stays stopped
+				if g.rng.chance(1, 2) {
+					for t in 0..nk {
+						g.push(format!("k.resume {} imm imm;0;lin", t), stats);
+					}
+					for j in 0..nq {
+						g.push(format!("q.resume {} imm imm;0;lin", j), stats);
+					}
+					g.cbs(2, stats);
+				}
+			}
 			// a sound waiting for a clock
 			0 | 1 => {
 				let tpf = g.ticks_per_frame();
